@@ -28,12 +28,14 @@ func init() {
 	Registry["C20"] = Check{Level: "exploration", Fn: runC20}
 }
 
-var reRaceFrame = regexp.MustCompile(`^\s+(seata\.apache\.org/seata-go/[^\s(]+)\(`)
+var reRaceFrame = regexp.MustCompile(`^\s+(seata\.apache\.org/seata-go/\S+)\(\)\s*$`)
 
 type c20Race struct {
 	Sig   string
 	Text  string
 	Count int
+	// every conflicting access itself (innermost frame of each accessing stack) is seata-go code
+	AccessInSeata bool
 }
 
 func c20ParseRaces(dir, prefix string) []*c20Race {
@@ -51,16 +53,26 @@ func c20ParseRaces(dir, prefix string) []*c20Race {
 			// the first seata-go frame of each of the stacks (accesses, goroutine creations are below "Goroutine")
 			parts := strings.Split(blk, "\n\n")
 			var sites []string
+			stacks, inner := 0, 0
 			for _, p := range parts {
 				head := strings.TrimSpace(p)
 				if !(strings.HasPrefix(head, "Write at") || strings.HasPrefix(head, "Read at") || strings.HasPrefix(head, "Previous write at") || strings.HasPrefix(head, "Previous read at") || strings.HasPrefix(head, "WARNING: DATA RACE")) {
 					continue
 				}
+				stacks++
+				first := true
 				for _, ln := range strings.Split(p, "\n") {
+					if !strings.HasPrefix(ln, "  ") || strings.HasPrefix(ln, "      ") {
+						continue // header or file:line
+					}
 					if m := reRaceFrame.FindStringSubmatch(ln); m != nil {
+						if first {
+							inner++
+						}
 						sites = append(sites, strings.TrimPrefix(m[1], "seata.apache.org/seata-go/"))
 						break
 					}
+					first = false
 				}
 			}
 			if len(sites) == 0 {
@@ -71,7 +83,7 @@ func c20ParseRaces(dir, prefix string) []*c20Race {
 			if r := bySig[sig]; r != nil {
 				r.Count++
 			} else {
-				bySig[sig] = &c20Race{Sig: sig, Text: clipStr(blk, 3000), Count: 1}
+				bySig[sig] = &c20Race{Sig: sig, Text: clipStr(blk, 3000), Count: 1, AccessInSeata: stacks >= 2 && inner == stacks}
 			}
 		}
 	}
